@@ -29,11 +29,16 @@
      validate_total          the validator never runs out of fuel
    _partial / not covered: ValidationUnknown (aberrant message types, resolver failures) and the
    MessageSet item branch (build tag protolegacy) are outside the schema-table model;
-   [validate_initialized_sound] is stated in this file only if proved (see below). *)
+   and [ValidationWrongWireType] (only returned by skipField, modelled in Msg/LazyModel.v).
+     validate_initialized_sound   Valid with the initialized flag set, and the decoder returns v
+                             -> CheckInitialized v succeeds: the validator never reports a
+                             partial message as initialized (schemas with unique field numbers
+                             whose required fields are not oneof members and whose map values
+                             are not groups -- true of every descriptor protodesc accepts) *)
 From Coq Require Import List NArith ZArith Bool.
 From PB Require Import Base.PBytes Wire.WireModel.
 From PB Require Import Msg.MsgSchema Msg.MsgValue Msg.MsgEnc Msg.MsgDec Msg.MsgExample.
-From PB Require Import Msg.ValidateMsgModel Msg.ValidateMsgP Msg.DecTotalP.
+From PB Require Import Msg.ValidateMsgModel Msg.ValidateMsgP Msg.DecTotalP Msg.InitSoundP.
 Import ListNotations.
 Open Scope N_scope.
 
@@ -93,6 +98,15 @@ Theorem C06_validate_invalid_sound_except_FL1 :
 Proof. exact vp_invalid_sound. Qed.
 Print Assumptions C06_validate_invalid_sound_except_FL1.
 
+Theorem C06_validate_initialized_sound :
+  forall (S : schema) (limit tid : nat) (bs : list byte) (quirk : bool) (v : value),
+    is_schema_ok S ->
+    vm_validate S limit tid bs = (3, true, quirk) ->
+    msg_decode false S limit tid bs = DOk v ->
+    msg_check_init S tid v = true.
+Proof. exact is_validate_initialized_sound. Qed.
+Print Assumptions C06_validate_initialized_sound.
+
 (* ---------- refutations of the unrestricted statements (findings) ---------- *)
 (* FWB4: a map field occurring as VARINT at recursion limit 1: Valid, but Unmarshal fails *)
 Definition C06_map_schema : schema :=
@@ -135,6 +149,14 @@ Proof. vm_compute. split; reflexivity. Qed.
 (* the quirk hypothesis is satisfiable: the FWB4 witness is Valid with the quirk flag *)
 Example C06_example_quirk : vm_validate C06_map_schema 1 0 [x08; x00] = (3, true, true).
 Proof. vm_compute. reflexivity. Qed.
+(* the hypotheses of validate_initialized_sound hold of the example: the schema is regular, the
+   validator reports initialized, the decoder returns a value, and CheckInitialized accepts it *)
+Example C06_example_initialized :
+  is_schema_ok ex_schema /\
+  vm_validate ex_schema 3 0 (msg_encode ex_schema 0 ex_msg) = (3, true, false) /\
+  msg_decode false ex_schema 3 0 (msg_encode ex_schema 0 ex_msg) = DOk ex_msg /\
+  msg_check_init ex_schema 0 ex_msg = true.
+Proof. split; [apply is_schema_okb_spec; vm_compute; reflexivity|]. vm_compute. repeat split; reflexivity. Qed.
 (* a message without its required field 10 is Valid but not initialized *)
 Example C06_example_partial : vm_validate ex_schema 3 0 [x08; x01] = (3, false, false).
 Proof. vm_compute. reflexivity. Qed.
